@@ -13,7 +13,7 @@ Conformance  : (T) traces of the 9 embedded pairs and Richardson wrappers, both 
 from fractions import Fraction
 import math
 import numpy as np
-from vf import gen, odecore, core, scen, num
+from vf import integreplay, gen, odecore, core, scen, num
 
 LEVEL = "model_checking"
 PREFIX = ("C05.",)
@@ -95,6 +95,9 @@ def check(run, replay=None):
     run.rule = ("traces: adaptive method x span (both directions, negative times) x initial dt (1e-4, 0.3, 3*span) x tolerance; "
                 "accuracy: (problem, T) cases generated by TLC x method x tolerance x initial dt; non-trivial = trace with a "
                 "rejected attempt / accuracy case with >= 3 steps; distinct by (method, span, dt0, tol)")
+    if replay and isinstance(replay.get("scenario"), dict) and "integreplay" in replay["scenario"]:
+        integreplay.phase(run, "C05", ('AttemptedSteps', 'Outcome', 'ReturnedStep', 'ProposedStep', 'ControllerCalls', 'CachedSlopeBelongsToNewState'), replay=replay["scenario"]["integreplay"])
+        return
     if replay:
         sc = replay.get("scenario")
         if isinstance(sc, dict) and "accuracy" in sc:
@@ -150,6 +153,10 @@ def check(run, replay=None):
             o = obs[b["id"]]
             run.violation(b["clause"], "accuracy %s %s T=%s/8 tol=%g dt0=%g" % (o["method"], o["problem"], o["k"], o["tol"], o["dt0"]),
                           {"errUnits": o["errUnits"], "steps": o["steps"], "ok": o["ok"]}, replay={"accuracy": list(jobs[b["id"]])})
+    if not replay:
+        # spec -> code: behaviours of Integrator.tla (attempts, the controller's verdicts, retries, giving up, faults) replayed on real
+        # integrator objects through the public adaptation_fn hook
+        integreplay.phase(run, "C05", ('AttemptedSteps', 'Outcome', 'ReturnedStep', 'ProposedStep', 'ControllerCalls', 'CachedSlopeBelongsToNewState'))
     run.assumptions += ["accuracy is decided on problems with rational solutions only (the specification cannot supply exp or sin): "
                         "'modest constant' = ModestK = 10 units of (atol + rtol|y|) times the amplification bound of the problem",
                         "random linear systems with exponential solutions are not covered (DESIGN.md section 10)"]
